@@ -1465,8 +1465,23 @@ class _IndexGOMixin:
         Args:
             values: can be a generator.
         '''
-        for value in values:
-            self.append(value)
+        count = self._positions_mutable_count
+        dtype = self._labels_mutable_dtype
+        map_is_none = self._map is None
+        labels, positions, recache = self._labels, self._positions, self._recache
+        try:
+            for value in values:
+                self.append(value)
+        except Exception:
+            # growth is all-or-nothing: restore the state found before the call
+            del self._labels_mutable[count:]
+            self._labels_mutable_dtype = dtype
+            self._positions_mutable_count = count
+            self._labels, self._positions, self._recache = labels, positions, recache
+            if recache: # arrays were already stale: derive them from the restored labels
+                self._update_array_cache()
+            self._map = None if map_is_none else AutoMap(self._labels)
+            raise
 
 
 class IndexGO(_IndexGOMixin, Index):
